@@ -93,10 +93,10 @@ def body2Ok (req : Spec.Smb2Req) (alen : Nat) (p : Bytes) : Bool :=
   | .negotiate ds =>
     p.length ≥ 64 && le16 p 0 = 65 &&
     ds.contains (le16 p 4) && Spec.smb2Supported.contains (le16 p 4) &&
-    le16 p 56 = 128 && le16 p 56 + le16 p 58 = alen
+    le16 p 56 = 128 && le16 p 56 + le16 p 58 = alen && Spec.derSpan (p.drop 64) = some (le16 p 58)
   | .sessionSetup =>
     p.length ≥ 8 && le16 p 0 = 9 &&
-    le16 p 4 = 72 && le16 p 4 + le16 p 6 = alen
+    le16 p 4 = 72 && le16 p 4 + le16 p 6 = alen && Spec.derSpan (p.drop 8) = some (le16 p 6)
 
 theorem smb2ReplyOk_frame (m body : Bytes) (req : Spec.Smb2Req) (h64 : m.length ≥ 64)
     (hbl : body.length < 100000) (hbody : body2Ok req (64 + body.length) body = true) :
@@ -166,7 +166,16 @@ theorem neg2Body_ok (env : Env) (ds : List Nat) (v : Nat) (guid : Bytes) (hg : g
     generalize smbTime env = T
     generalize SECURITY_BLOB_NEG_PROTO = B
     simp [u32le, u64le, Spec.le16, Spec.u8]
-  rw [h0, h4, h56, h58, hv, hs]
+  have hd : (smb2NegotiateReply env v guid).drop 64 = SECURITY_BLOB_NEG_PROTO := by
+    have e2 : smb2NegotiateReply env v guid =
+        (([65, 0, 1, 0, byte v, byte (v / 256), 1, 0] ++ guid) ++
+         (u32le 1 ++ u32le 65536 ++ u32le 65536 ++ u32le 65536 ++ u64le (smbTime env) ++ u64le (smbTime env) ++
+          [128, 0, 64, 1, 0, 0, 0, 0])) ++ SECURITY_BLOB_NEG_PROTO := by
+      rw [e]; simp only [List.append_assoc]
+    rw [e2]
+    exact drop_append_len _ _ 64 (by simp [hg, u32le, u64le])
+  have hder : Spec.derSpan SECURITY_BLOB_NEG_PROTO = some 320 := by decide +kernel
+  rw [h0, h4, h56, h58, hv, hs, hd, hder]
   rfl
 
 end Masscanned.C17
